@@ -77,3 +77,12 @@ BLOCKING_PRIMITIVES = {
     'putrequest': 'HTTPConnection.putrequest connects to the peer (auto_open)',
     'endheaders': 'HTTPConnection.endheaders connects/sends to the peer',
 }
+# the same, but only inside the named modules (names too common elsewhere)
+BLOCKING_PRIMITIVES_IN = {
+    ('slimta.relay.http', 'read'): 'HTTPResponse.read reads the response '
+                                   'body from the peer',
+    ('slimta.relay.http', 'readline'): 'HTTPResponse.readline reads from '
+                                       'the peer',
+    ('slimta.relay.http', 'readinto'): 'HTTPResponse.readinto reads from '
+                                       'the peer',
+}
